@@ -133,7 +133,7 @@ impl Scenario for Conc {
     fn run(&self, cx: &mut Run) {
         let cfg = cx.src.chan("cfg");
         let nthreads = 2 + cfg.biased_zero(2, 1, 3) as usize;
-        let e1cfg = e1::draw_cfg(&cfg, 3000);
+        let e1cfg = e1::draw_cfg(&cfg, 8000);
         let tm = Arc::new(TokenManager::new(self.level));
         let vm: Arc<VersionManager> = tm.version_manager().clone();
         let ledger = Arc::new(Mutex::new(Ledger { inflight: vec![[0, 0]; nthreads], ..Default::default() }));
